@@ -191,6 +191,7 @@ fn main() {
             }
         }
         "child-damage" => campaign::child_main(&args),
+        "child-special" => campaign::special_child_main(&args),
         "c09" => {
             if let Some(f) = args.replay.clone() {
                 c09::replay_main(&args, &f)
